@@ -13,6 +13,9 @@ vector is `.`, no vectors is `-`; indexes = decimal `i,i,..` or `-`; leaf spec =
                                            <into_openings = proves> [<root> <cs leaves> <depth> <cs nodes>]` | `err-..`
   smut <h> <leaves> <index> <mut>      -> verdict of `verify` after one substitution
   bmut <h> <leaves> <indexes> <mut>    -> `<get_root> <verify_batch> <into_openings>` after one mutation
+                                          (`addnode:i` / `addnodes:i:k`: 1 / k digests appended to vector i;
+                                           `movenode:i:j`: last digest of vector j dropped, one appended to i;
+                                           `addleaf` / `addleaves:k`: surplus leaves; `addpair:v`: index v and a leaf appended)
   xverify <root> <index> <leaf> <proof>
   xbatch <root> <depth> <nodes> <indexes> <leaves>  -> `<get_root> <verify_batch> <into_openings>`
   xfsp <openings> <indexes>            -> `ok:<depth>:<nodes>` | `abort`
@@ -108,6 +111,20 @@ def applyBMut (m : String) (idx : List Nat) (lv : List Nat) (p : BatchProof Nat)
     let i ← i.toNat?
     let ns ← setAt p.nodes i (fun v => v ++ [fresh (v.headD 7)])
     pure (idx, lv, { p with nodes := ns })
+  | ["addnodes", i, k] => do
+    let i ← i.toNat?; let k ← k.toNat?
+    let ns ← setAt p.nodes i (fun v =>
+      v ++ ((List.range k).foldl (fun (acc : List Nat × Nat) _ => (acc.1 ++ [acc.2], fresh acc.2))
+        ([], fresh (v.headD 7))).1)
+    pure (idx, lv, { p with nodes := ns })
+  | ["movenode", i, j] => do
+    let i ← i.toNat?; let j ← j.toNat?
+    let vi ← p.nodes[i]?
+    let vj ← p.nodes[j]?
+    if vj.isEmpty then none
+    let ns1 ← setAt p.nodes j (fun v => v.dropLast)
+    let ns2 ← setAt ns1 i (fun v => v ++ [fresh (vi.headD 7)])
+    pure (idx, lv, { p with nodes := ns2 })
   | ["dropvec", i] => do
     let i ← i.toNat?; let ns ← dropAt p.nodes i; pure (idx, lv, { p with nodes := ns })
   | ["addvec"] => some (idx, lv, { p with nodes := p.nodes ++ [[]] })
@@ -116,6 +133,12 @@ def applyBMut (m : String) (idx : List Nat) (lv : List Nat) (p : BatchProof Nat)
   | ["dropleaf", pos] => do
     let pos ← pos.toNat?; let lv ← dropAt lv pos; pure (idx, lv, p)
   | ["addleaf"] => some (idx, lv ++ [fresh (lv.headD 7)], p)
+  | ["addleaves", k] => do
+    let k ← k.toNat?
+    pure (idx, lv ++ ((List.range k).foldl
+      (fun (acc : List Nat × Nat) _ => (acc.1 ++ [acc.2], fresh acc.2)) ([], fresh (lv.headD 7))).1, p)
+  | ["addpair", v] => do
+    let v ← v.toNat?; pure (idx ++ [v], lv ++ [fresh (lv.headD 7)], p)
   | ["swapleaf", a, b] => do
     let a ← a.toNat?; let b ← b.toNat?; let lv ← swapAt lv a b; pure (idx, lv, p)
   | ["dropidx", pos] => do
